@@ -30,6 +30,8 @@ type Case struct {
 
 var otherGeom = geom.MultiLineString{{{X: 123456.5, Y: -2}, {X: 3, Y: 4}, {X: 5, Y: 6.25}}, {{X: 7, Y: 8}}}
 
+var otherEnc = []byte(`{"type":"MultiLineString","coordinates":[[[123456.5,-2],[3,4],[5,6.25]],[[7,8]]]}`)
+
 var nonfinite = []float64{math.NaN(), math.Inf(1), math.Inf(-1)}
 
 func build(c Case) geom.Geom {
@@ -195,7 +197,8 @@ func check(c Case) (string, string) {
 		return "text-not-json", e.Error() + ": " + string(enc)
 	}
 	obj, ok := doc.(map[string]interface{})
-	if !ok || len(obj) != 2 {
+	if _, has := obj["coordinates"]; !ok || !has {
+		// (further members such as "bbox" are allowed by RFC 7946)
 		return "text-shape", string(enc)
 	}
 	if obj["type"] != typeName[c.Skel.Kind] {
@@ -213,6 +216,12 @@ func check(c Case) (string, string) {
 	}
 	if d := geomgen.Diff(g, got, true); d != "" {
 		return "roundtrip-differs", d + ": " + string(enc)
+	}
+	// the geometry decoded earlier must survive a later Decode call (history)
+	if p := try(func() { geojson.Decode(otherEnc) }); p == "" {
+		if d := geomgen.Diff(g, got, true); d != "" {
+			return "decoded-geometry-changed-by-later-Decode", d
+		}
 	}
 	// the bytes returned earlier must not change when Encode is called again
 	// (history: Encode, Encode, then use the first result)
